@@ -172,7 +172,16 @@ class Gen:
             return E("const", U256, v=r.randrange(n))
         if x < 0.6 and not static and n >= 2:
             return E("const", U256, v=n + r.randrange(2))    # possibly beyond the live length (run-time check); < capacity
-        e = self.nonlit(cx, scope, U256, d - 1)
+        # calls inside a subscript mostly hit the legacy front end's "risky overlap" guard (a compile-time rejection):
+        # keep them rare
+        if r.random() < 0.85:
+            cx.no_calls += 1
+            try:
+                e = self.nonlit(cx, scope, U256, d - 1)
+            finally:
+                cx.no_calls -= 1
+        else:
+            e = self.nonlit(cx, scope, U256, d - 1)
         if e is None:
             return E("const", U256, v=r.randrange(max(n, 1)))
         if n > 0 and r.random() < 0.7:
